@@ -1,5 +1,5 @@
 (* C06 — Generated WBXML is grammatical and denotes exactly the source XML; C07 — WBXML half (the c07_wbxml_ theorems).
-   Only statements, each closed by `exact`, with Print Assumptions beneath.
+   Only statements, each closed by `exact`, with the Print-Assumptions command under each.
    Model: Model/EncWbxml.v (transcription of the WBXML half of wbxml_encoder.c); proofs: Proofs/EncWbxmlProofs.v.
 
    FULL statement aimed at (DESIGN.md C06), NOT proved here:
@@ -9,8 +9,9 @@
    header) and the value-splitting lemma, each for ALL trees / languages; the grammar-level clauses (balance of END,
    denotation of the whole byte string) are checked by the strict decoder oracle on the C's bytes and have no theorem
    yet (they need the Coq `Spec.decode` of C04, which is another file). *)
-From Coq Require Import List NArith.
-From Wbxml Require Import Model.Codec Model.EncWbxml Proofs.EncWbxmlProofs.
+From Coq Require Import List NArith String.
+From Wbxml Require Import Model.Codec Model.TablesDefs Model.EncWbxml Model.TreeNorm Proofs.EncWbxmlProofs Proofs.EncWbxmlSerialize Proofs.EncWbxmlDenote.
+From Wbxml Require Model.Parser Model.Spec.
 Import ListNotations.
 Local Open Scope N_scope.
 
@@ -176,3 +177,57 @@ Theorem C06_header_textual_public_id_with_strtbl : forall e st p,
        (offsets_from 0 tbl /\ tlen = len (strtbl_construct tbl)) /\ exists x, In x tbl /\ s_off x = idx /\ s_str x = p).
 Proof. exact fill_header_textual_strtbl. Qed.
 Print Assumptions C06_header_textual_public_id_with_strtbl.
+
+(* ---- grammar level: the output is the serialization of a strict abstract document --------------------------------- *)
+
+(* PARTIAL (fragment): no string table, numeric public id, a language without typed content / extension table, a tree of
+   token tags (token 5..63, not binary-flagged) without attributes and with text content.  For every such tree, option tuple
+   and language the encoder's bytes are EXACTLY Spec.serialize of an abstract document (abs_doc) of the WBXML grammar
+   (Model/Spec.v, written from the BNF) which satisfies the strictness predicate of the proved strict decoder.  Being in the
+   image of `serialize` is the clause "attribute lists, elements and the document terminate and balance"; SWITCH_PAGE
+   appears in abs_doc exactly where the page of a tag differs from the page in force.
+   Outside the fragment (string table, literals, attributes, typed content, CDATA, embedded trees) this is established on
+   the C's bytes only, by vlib/strictdec.py and by the extracted Spec.decode_lang (third oracle). *)
+Theorem C06_output_is_serialize_of_strict_doc_partial : forall tbl l o p t opts nm ch,
+  frag_lang l = true -> o_use_strtbl o = false -> no_pid (enc_env l o) = true ->
+  frag_node (NElt (TagTok p t opts nm) [] ch) = true ->
+  enc_wbxml tbl l o [NElt (TagTok p t opts nm) [] ch]
+    = EOk (Spec.serialize (abs_doc l o (NElt (TagTok p t opts nm) [] ch)))
+  /\ Spec.strict_doc (abs_doc l o (NElt (TagTok p t opts nm) [] ch)) = true.
+Proof. exact enc_wbxml_is_serialize. Qed.
+Print Assumptions C06_output_is_serialize_of_strict_doc_partial.
+
+(* THE FULL STATEMENT of DESIGN C06, for the same fragment (PARTIAL in the fragment only): there is an abstract document d
+   with  enc_wbxml l o t = Ok (serialize d),  strict d,  and  denote d = events of the NORMALISED source tree (norm o t:
+   blank-only text dropped and text trimmed unless keep-ws) — and therefore the PROVED strict decoder of the parser
+   development (Spec.decode_lang, language forced), run on the encoder's bytes, returns exactly those events.
+   Hypotheses beyond the fragment: the decoder's table L agrees with the tags of the tree (tree_ok: each (page, token)
+   is found under that page with that name; pages < 256; depth <= 1000; text octets < 256), version 1.0-1.3, a public id
+   in 1 .. 2^32-1.  "Tokens under their own page" is part of denote (lookup under the page in force). *)
+Theorem C06_strict_decoding_yields_normalised_source_partial : forall tblb TBL L l o p t opts nm ch,
+  frag_lang l = true -> o_use_strtbl o = false -> no_pid (enc_env l o) = true ->
+  frag_node (NElt (TagTok p t opts nm) [] ch) = true ->
+  find (fun x => l_id x =? l_id L) TBL = Some L ->
+  tree_ok L 0 (NElt (TagTok p t opts nm) [] ch) = true ->
+  o_version o < 4 -> header_public_id (enc_env l o) < 4294967296 -> header_public_id (enc_env l o) <> 0 ->
+  exists d bs,
+    enc_wbxml tblb l o [NElt (TagTok p t opts nm) [] ch] = EOk bs /\ bs = Spec.serialize d /\ Spec.strict_doc d = true /\
+    Spec.denote_with TBL (Some L) d
+      = Some (Parser.EvStartDoc 106 (l_id L) :: flat_map events_node (norm (o_keep_ws o) [NElt (TagTok p t opts nm) [] ch]) ++ [Parser.EvEndDoc]) /\
+    Spec.decode_lang TBL (l_id L) bs
+      = Some (Parser.EvStartDoc 106 (l_id L) :: flat_map events_node (norm (o_keep_ws o) [NElt (TagTok p t opts nm) [] ch]) ++ [Parser.EvEndDoc]).
+Proof. exact strict_decode_of_encoding. Qed.
+Print Assumptions C06_strict_decoding_yields_normalised_source_partial.
+
+(* the hypotheses are satisfiable: <p> a </p> in a one-tag language, trimmed, strictly decoded from the encoder's bytes *)
+Example C06_fragment_example :
+  let L := mk_lang 9999 4 None None None (Some [mk_tag "p"%string 0 32 0]) None None None None in
+  let l := mk_blang 9999 4 None (Some [mk_btag [112] 0 32 0]) None None None in
+  let o := mk_opts 3 false false false in
+  let t := NElt (TagTok 0 32 0 [112]) [] [NText [32; 97; 32]; NText [32; 32]] in
+  frag_lang l = true /\ no_pid (enc_env l o) = true /\ frag_node t = true /\ tree_ok L 0 t = true /\
+  enc_wbxml [] l o [t] = EOk [3; 4; 106; 0; 96; 3; 97; 0; 1] /\
+  Spec.decode_lang [L] 9999 [3; 4; 106; 0; 96; 3; 97; 0; 1]
+    = Some [Parser.EvStartDoc 106 9999; Parser.EvStartElt (Parser.TagTok 0 32 [112]) []; Parser.EvChars [97];
+            Parser.EvEndElt (Parser.TagTok 0 32 [112]); Parser.EvEndDoc].
+Proof. cbv zeta. repeat split; vm_compute; reflexivity. Qed.
